@@ -399,6 +399,22 @@ func portableMutants(t *rapid.T, enc []byte, lay spec.Layout, chunks []spec.Chun
 				put16(b, po+2+4*rj+2, nst-st+1)
 				return b
 			})
+			add("run:overlap-by-one-value", func(b []byte) []byte {
+				// run rj ends exactly on the first value of run rj+1
+				st, nst := get16(b, po+2+4*rj), get16(b, po+2+4*(rj+1))
+				put16(b, po+2+4*rj+2, nst-st)
+				return b
+			})
+			add("run:next-start-pulled-back", func(b []byte) []byte {
+				// run rj+1 starts on the last value of run rj (its end stays where it was)
+				st, ln := get16(b, po+2+4*rj), get16(b, po+2+4*rj+2)
+				nst, nln := get16(b, po+2+4*(rj+1)), get16(b, po+2+4*(rj+1)+2)
+				back := rapid.IntRange(0, int(ln)).Draw(t, "mut.back")
+				ns := st + ln - uint16(back)
+				put16(b, po+2+4*(rj+1), ns)
+				put16(b, po+2+4*(rj+1)+2, nst+nln-ns)
+				return b
+			})
 			add("run:adjacent", func(b []byte) []byte {
 				st, nst := get16(b, po+2+4*rj), get16(b, po+2+4*(rj+1))
 				put16(b, po+2+4*rj+2, nst-st-1)
